@@ -15,9 +15,10 @@ JOBS = int(os.environ.get("VERIF_JOBS", V.NCPU))
 
 TIERS = {
     # nbig: systems with a side in 21..40 (a quarter of them 40 x 40); 6x (quick) / 10x (thorough) as many 7..20;
-    # plus every shape <= 6 x 6 x rank pattern x entry kind, once (quick) or 40 times (thorough)
-    "quick": dict(nbig=8, chunks=JOBS, timeout=900),
-    "thorough": dict(nbig=160, chunks=4 * JOBS, timeout=3000),
+    # plus every shape <= 6 x 6 x rank pattern x entry kind, once (quick) or 60 times (thorough)
+    # thorough: three independent rounds (harness seeds seed, seed+7919, seed+2*7919), validated one after the other
+    "quick": dict(nbig=8, chunks=JOBS, timeout=900, rounds=1),
+    "thorough": dict(nbig=200, chunks=4 * JOBS, timeout=3000, rounds=3),
 }
 
 ASSUME = [
@@ -174,12 +175,17 @@ def check(prop, tier, seed, replay=None):
             validate(oc, out, {"replay_of": replay, "tier": tier, "seed": seed}, 1, workdir, cfg["timeout"])
             required = []
         else:
-            out = os.path.join(workdir, "gen.ndjson")
-            run_harness(exe, ["--tier", tier, "--seed", str(seed), "--nbig", str(cfg["nbig"])], out)
-            lines = validate(oc, out, {"tier": tier, "seed": seed}, cfg["chunks"], workdir, cfg["timeout"])
-            for i in (0, 4, len(lines) // 2):
-                if i < len(lines) and len(lines[i]) < 6000:
-                    oc.samples.append(sample_of(lines[i]))
+            for rnd in range(cfg["rounds"]):
+                out = os.path.join(workdir, f"gen{rnd}.ndjson")
+                hseed = seed + 7919 * rnd
+                run_harness(exe, ["--tier", tier, "--seed", str(hseed), "--nbig", str(cfg["nbig"])], out)
+                lines = validate(oc, out, {"tier": tier, "seed": seed, "harness_seed": hseed}, cfg["chunks"], workdir, cfg["timeout"])
+                if rnd == 0:
+                    for i in (0, 4, len(lines) // 2):
+                        if i < len(lines) and len(lines[i]) < 6000:
+                            oc.samples.append(sample_of(lines[i]))
+                del lines
+                os.remove(out)
             # witnesses of open known findings (explicit systems, re-run on every check)
             wl = []
             for i, ent in enumerate(oc.known["open"]):
@@ -195,9 +201,11 @@ def check(prop, tier, seed, replay=None):
                 validate(oc, wout, {"witness": True, "tier": tier, "seed": seed}, 1, workdir, cfg["timeout"])
             required = required_cells(tier)
         missing = [k for k in required if oc.cov.get(k, 0) == 0]
-        if missing:
+        if missing and not oc.violations:
             # vacuity guard: a cell of the plan that no event reached is a defect of the generator, not a verdict
             raise V.ToolFailure(f"coverage cells not reached ({len(missing)}): {missing[:12]}")
+        if missing:
+            oc.notes.append(f"coverage cells not reached: {missing}")
         rule = ("one evaluation = one recorded library call group (one system, every storage of J) validated by TLC in exact "
                 "rational arithmetic; cells = operation | rank pattern | size class | certified condition class, storage, shape, "
                 "decade of lambda / Delta, re-derived by the trace spec from the logged operands; distinct_nontrivial = non-empty cells")
